@@ -272,7 +272,7 @@ class SymInt(object):
       mv = E.model.eval(self.e, model_completion=True).as_long()
       if E.decide(self.e == mv): return mv
     boundary('%s of unbounded SymInt %s' % (what, self.e))
-    raise _eng.PathLimit()
+    E._abort()
   def __index__(self):
     if _log_site(): return 0
     return self.concretize(what='__index__')
